@@ -25,7 +25,14 @@
 (*   Push/PopLocHandle, FindLocNode chain (asmpars.c)                      *)
 (* Deviations of the pinned code from the manual are NAMED (DevNames) and  *)
 (* switchable: Fix(d) selects the repaired behaviour, ~Fix(d) the code as  *)
-(* it is.  The machine records in st.devs which deviation actually fired.  *)
+(* it is.  The machine records in st.devs which deviation actually fired:  *)
+(*   EmptyBodyPop      MACRO_Restorer pops a symbol space never pushed     *)
+(*   IrpcEmptyOnce     IRP_OutProcessor queues IRPC over ""                *)
+(*   TokenStraddle     ExpandLine matches across two stored tokens         *)
+(*   ShiftExcess       ExpandSHIFT unbinds the last formal parameter       *)
+(*   IrpDoubleCleanup  IRP_Cleanup called twice after EXITM: NULL deref    *)
+(*   IrpPosNext        IRP_GetPos names the next argument (st.pdevs, C20)  *)
+(* Every delivered statement also carries its POSITION (section 3, C20).   *)
 (*                                                                         *)
 (* DECLARATIVE SIDE: ExpandDecl(files) = the manual's textual substitution *)
 (* semantics as a recursive big-step evaluator over the program text       *)
